@@ -301,3 +301,66 @@ func funcsOfType(p *core.Prog, pkg *ssa.Package, typ string) []*ssa.Function {
 	}
 	return out
 }
+
+// condFlag: the decided condition cnd implies that the boolean flag `flag` of the object named base reads as
+// want - directly, through negations and decided short-circuit operands, or through a predicate helper of the
+// same receiver whose result is such a combination (`func (x) isDoneOrStarted() bool { return a || b }`).
+func condFlag(p *core.Prog, cnd core.Cond, base, flag string, want bool, depth int) bool {
+	for _, c2 := range core.ExpandCond(cnd) {
+		n := core.Normalize(c2)
+		if n.True == want && flagRead(p, n.V, base, flag, 0) {
+			return true
+		}
+		if depth >= 2 {
+			continue
+		}
+		call, ok := n.V.(*ssa.Call)
+		if !ok || len(call.Call.Args) == 0 || core.Path(call.Call.Args[0]) != base {
+			continue
+		}
+		h := core.Callee(&call.Call)
+		if h == nil || !p.InRepo(h) || len(h.Params) == 0 || len(h.Blocks) == 0 {
+			continue
+		}
+		cases := core.ReturnCases(h)
+		if len(cases) == 0 {
+			continue
+		}
+		// the helper returned n.True: on every return case that can yield that value the flag must read as want
+		all := true
+		for _, rc := range cases {
+			v := rc.Vals[0]
+			if k, isK := v.(*ssa.Const); isK && k.Value != nil {
+				if isTrueConst(k) != n.True {
+					continue // this case returns the other truth value
+				}
+				// constant result: the facts of the case must imply the flag value
+				okc := false
+				for _, f := range rc.Facts {
+					if condFlag(p, f, h.Params[0].Name(), flag, want, depth+1) {
+						okc = true
+					}
+				}
+				if !okc {
+					all = false
+				}
+				continue
+			}
+			if !condFlag(p, core.Cond{V: v, True: n.True}, h.Params[0].Name(), flag, want, depth+1) {
+				okc := false
+				for _, f := range rc.Facts {
+					if condFlag(p, f, h.Params[0].Name(), flag, want, depth+1) {
+						okc = true
+					}
+				}
+				if !okc {
+					all = false
+				}
+			}
+		}
+		if all {
+			return true
+		}
+	}
+	return false
+}
